@@ -325,6 +325,8 @@ def oracle_public(ctx, count):
         b = np.array([rng.uniform(-1, 1) for _ in range(n)]).astype(dt)
         if cplx:
             x = (x + 1j * np.array([rng.uniform(-1, 1) for _ in range(n)])).astype(dt)
+        if it % 5 == 3:
+            x = np.zeros(n, dtype=dt)        # the zero initial guess (every coarse-level pre-smoothing starts there)
         sweep = rng.choice(['forward', 'backward', 'symmetric'])
         its = rng.choice([0, 1, 1, 2, 3])
         om = rng.choice([1.0, 0.5, 1.5, 4.0 / 3.0])
